@@ -80,7 +80,8 @@ Init == /\ script \in ScriptChoices
 
 HasOp(t) == ip[t] <= Len(script[t])
 Op(t) == script[t][ip[t]]
-Step(p, l) == tr' = Append(tr, <<p, l>>)
+\* schedule entry: process, label, and (for API threads) the handle slot the call works on
+Step(p, l) == tr' = Append(tr, <<p, l, IF p \in Threads /\ HasOp(p) THEN Op(p).h ELSE 0>>)
 Finish(t) == /\ ip' = [ip EXCEPT ![t] = ip[t] + 1] /\ pc' = [pc EXCEPT ![t] = "idle"]
 
 (* -------------------------------- listen -------------------------------- *)
